@@ -306,3 +306,21 @@ def same_impl_helpers(body, module=False, exclude=()):
         # private free function of the module the impl (or the function) lives in
         return module and not fn.impl and module_of(fn) == module_of(root)
     return want
+
+
+def module_private_helpers(body, exclude=()):
+    """predicate: callee is a non-public, non-exported, non-derived function or method (of any impl) defined in the module `body`
+    lives in — wider than same_impl_helpers: also the private / pub(crate) methods of a sibling type of the same module
+    (`Command::into_line` used by `CommandList::render`)"""
+    base = same_impl_helpers(body, module=True, exclude=exclude)
+    root = body.prog.bodies.get(body.root, body)
+
+    def want(cb):
+        if base(cb):
+            return True
+        if cb.raw.get("derived") or cb.crate != body.crate or cb.raw.get("coroutine") or cb.kind not in ("Fn", "AssocFn"):
+            return False
+        if cb.raw.get("pub") or cb.raw.get("exported") or norm(cb.name) in exclude:
+            return False
+        return module_of(cb) == module_of(root)
+    return want
